@@ -45,7 +45,7 @@ fn verifier_challenges<G: Group>(msg: &Msg<G>) -> Result<Option<Vec<Scalar>>, Ca
     let tid = trs[0].tap_id();
     let r = guarded(|| G::verify(&mut trs, std::slice::from_ref(&st), std::slice::from_ref(&proof), VerifyAction::VerifyOnly));
     let events = tap::stop();
-    r?;
+    let _ = r?;
     match TranscriptView::from_events(&events, tid) {
         Ok(v) => Ok(Some(v.challenges)),
         Err(_) => Ok(None),
